@@ -97,10 +97,17 @@ def gen_tree(rng, names_used=None):
     data = {'hierarchy': list(hierarchy)}
     prev = None
     per_level = []
+    # a quarter of the trees label their nodes with a per-level counter ('1', '2', ...): the same label string then
+    # names different nodes on every level (allowed: labels are unique per level only)
+    counters = rng.random() < 0.25
     for li, level in enumerate(hierarchy):
         used = set()
         n_nodes = rng.randrange(1, 5) if li == 0 else rng.randrange(len(per_level[-1]), len(per_level[-1]) + 4)
-        nodes = [gen_name(rng, used) for _ in range(n_nodes)]
+        if counters:
+            nodes = [str(k + 1) for k in range(n_nodes)]
+            rng.shuffle(nodes)
+        else:
+            nodes = [gen_name(rng, used) for _ in range(n_nodes)]
         per_level.append(nodes)
     for li, level in enumerate(hierarchy):
         nodes = per_level[li]
